@@ -431,6 +431,22 @@ def dual_mixed(ctx):
         if not ok:
             continue
         sc = max(1.0, float(np.abs(uv).max()))
+        # conjugate of the unit dual quaternion: (real*, dual*), the same 8 numbers conjugate the same in either class, and u conj(u) = 1 + 0 eps
+        cidc = 'C12/dual/mixed/%s/conj' % un
+        if ctx.want(cidc):
+            ctx.case(cidc, key=cidc)
+            Pc = dict(grid='dual-mixed', u=un.split('|')[0])
+            okc, rc = call(lambda: (np.asarray(mku().conj().vec, dtype=float), np.asarray(dq(uv).conj().vec, dtype=float), np.asarray((mku() * mku().conj()).vec, dtype=float)))
+            if not okc:
+                ctx.fail(cidc, 'DualQuaternion.conj', 'raises:' + type(rc).__name__, Pc, '%r' % (rc,))
+            else:
+                wantc = np.r_[ref.qconj(uv[:4]), ref.qconj(uv[4:])]
+                if np.abs(rc[0] - wantc).max() > 1e-9 * sc:
+                    ctx.fail(cidc, 'DualQuaternion.conj', 'mismatch', dict(Pc, law='conj'), 'conj of the unit dual quaternion differs from (real*, dual*) by %.3g' % np.abs(rc[0] - wantc).max())
+                if np.abs(rc[0] - rc[1]).max() > 1e-9 * sc:
+                    ctx.fail(cidc, 'DualQuaternion.conj', 'mismatch', dict(Pc, law='conj-class'), 'the same 8 numbers conjugate differently as UnitDualQuaternion and as DualQuaternion')
+                if np.abs(rc[2] - np.r_[1.0, np.zeros(7)]).max() > 1e-6 * sc:
+                    ctx.fail(cidc, 'DualQuaternion.conj', 'mismatch', dict(Pc, law='u conj(u)'), 'u * conj(u) = %s, expected 1 + 0 eps' % rc[2].tolist())
         for gi, a in enumerate(gens8):
             cid = 'C12/dual/mixed/%s/a%d' % (un, gi)
             if not ctx.want(cid):
@@ -466,6 +482,38 @@ def dual_mixed(ctx):
                 ctx.fail(cid, 'DualQuaternion.mul', 'mismatch', P, 'U*U2 differs from the dual-number Hamilton product by %.3g' % np.abs(np.asarray(r[0], dtype=float) - want).max())
 
 
+def element_types(ctx):
+    """operands held in arrays of another element type (single precision, integers) or in lists of NumPy scalars: the same real
+    components, so the same products to 1e-9 relative (components chosen exactly representable in every type)"""
+    import spatialmath.base as b
+    import spatialmath as sm
+    vals = [A(1, 2, -1, 3), A(0.5, -1.5, 2, 0.25), A(3, 0, -2, 1), A(-0.75, 1, 1, 2)]
+    conv = {'float32': lambda v: v.astype(np.float32), 'float16': lambda v: v.astype(np.float16), 'int-array': lambda v: (4 * v).astype(np.int64),
+            'list-f32': lambda v: [np.float32(x) for x in v], 'list-int': lambda v: [int(4 * x) for x in v]}
+    for (i, a), (j, bb), (tn, cv) in itertools.product(enumerate(vals), enumerate(vals), conv.items()):
+        cid = 'C12/etype/%s/%d.%d' % (tn, i, j)
+        if not ctx.want(cid):
+            continue
+        ctx.case(cid, key=cid)
+        k = 4.0 if 'int' in tn else 1.0           # integer containers hold 4x the components (all are multiples of 1/4)
+        ta, tb = cv(a), cv(bb)
+        P = dict(grid='etype', etype=tn)
+        fa, fb = a * k, bb * k
+        tests = (('base.qqmul', lambda: b.qqmul(ta, tb), ref.qmul(fa, fb)), ('base.qnorm', lambda: b.qnorm(ta), math.sqrt(float(fa @ fa))), ('base.conj', lambda: b.conj(ta), ref.qconj(fa)),
+                 ('base.inner', lambda: b.inner(ta, tb), float(fa @ fb)), ('base.qpow', lambda: b.qpow(ta, 3), ref.qmul(ref.qmul(fa, fa), fa)),
+                 ('base.matrix', lambda: b.matrix(ta) @ fb, ref.qmul(fa, fb)), ('Quaternion.mul', lambda: (sm.Quaternion(ta) * sm.Quaternion(tb)).vec, ref.qmul(fa, fb)),
+                 ('Quaternion.norm', lambda: sm.Quaternion(ta).norm(), math.sqrt(float(fa @ fa))), ('Quaternion.pow', lambda: (sm.Quaternion(ta) ** -2).vec, ref.qconj(ref.qmul(fa, fa))))
+        for site, f, want in tests:
+            ok, r = call(f)
+            if not ok:
+                ctx.note('etype_refused', '%s(%s) -> %s' % (site, tn, type(r).__name__))
+                continue
+            r = np.asarray(r, dtype=float)
+            w = np.asarray(want, dtype=float)
+            if r.shape != w.shape or np.abs(r - w).max() > 1e-9 * max(1.0, float(np.abs(w).max())):
+                ctx.fail(cid, site, 'mismatch', dict(P, law='value'), '%s with %s operands: %s, expected %s' % (site, tn, r.tolist(), w.tolist()))
+
+
 def shards(tier, seed):
     out = []
     for d in (1, 2, 3):
@@ -476,7 +524,7 @@ def shards(tier, seed):
     for mode in (0, 1, 2):
         K = 8
         out += [('dual', k, K, mode) for k in range(K)]
-    out += [('dualbasis',), ('dualnorm',), ('dualmixed',)]
+    out += [('dualbasis',), ('dualnorm',), ('dualmixed',), ('etype',)]
     return out
 
 
@@ -496,5 +544,7 @@ def run_shard(ctx, shard):
         dual_basis(ctx)
     elif k == 'dualmixed':
         dual_mixed(ctx)
+    elif k == 'etype':
+        element_types(ctx)
     else:
         dual_norm(ctx)
